@@ -18,6 +18,7 @@ type Scenario struct {
 	Kind    string     `json:"kind"`    // sema notify mutex rwmutex wg once cond value
 	Variant string     `json:"variant"` // which GOROOT's sync sources run on top of llgo's semaphores
 	Init    []int      `json:"init,omitempty"`
+	Base    uint32     `json:"base,omitempty"` // notify / cond: initial value of both ticket counters (wrap-around near 2^32)
 	Tasks   [][]Op     `json:"tasks"`
 	Cfg     sim.Config `json:"cfg"`
 }
